@@ -219,6 +219,8 @@ class Program:
                 self.normalisation["partials_to_lambdas"] = partial_to_lambda(self, known_names())
                 from .canon import dissolve_namedtuples
                 self.normalisation["namedtuples_dissolved"] = dissolve_namedtuples(self)
+                from .canon import inline_new_generators
+                self.normalisation["generators_dissolved"] = inline_new_generators(self, known_names())
                 from .canon import inline_generator_delegation
                 self.normalisation["generator_delegations_inlined"] = inline_generator_delegation(self, known_names())
                 from .canon import closures_from_method_refs
